@@ -98,6 +98,35 @@ def split(eng, v, sep, maxsplit=-1):
     return [build(ps) for ps in pieces]
 
 
+def split_whitespace(eng, v):
+    """str.split() without separator: tokens between runs of whitespace, no empty tokens.  Structural when every atom is
+    whitespace-free and provably non-empty (an empty atom could make a token vanish)."""
+    parts = parts_of(v)
+    for p in parts:
+        if not isinstance(p, str):
+            if not (WS <= excl(eng, p)):
+                raise Unsupported('split(): an atom may contain whitespace')
+            if _maybe_empty(eng, p):
+                raise Unsupported('split(): possibly empty atom')
+    tokens, cur = [], []
+    for p in parts:
+        if isinstance(p, str):
+            for ch in p:
+                if ch in WS:
+                    if cur:
+                        tokens.append(cur)
+                        cur = []
+                elif cur and isinstance(cur[-1], str):
+                    cur[-1] += ch
+                else:
+                    cur.append(ch)
+        else:
+            cur.append(p)
+    if cur:
+        tokens.append(cur)
+    return [build(t) for t in tokens]
+
+
 def replace(eng, v, old, new):
     parts = parts_of(v)
     if not isinstance(old, str) or not isinstance(new, str) or len(old) != 1:
